@@ -724,3 +724,5 @@ PROPS["C18"]["rule"] += " Wire-image part: a mutated image that still parses as 
 PROPS["C10"]["rule"] += " Wiring part: for every mode vector of up to 5 interfaces (and 200 / 20 000 random ones of up to 130) every advertiser and monitor BuildTasks returns holds a link-state subscription of its own."
 
 PROPS["C17"]["rule"] += " /debug/pprof/cmdline and /debug/pprof/symbol must be gated exactly as the index is."
+
+PROPS["C20"]["rule"] += " Every task is run exactly once."
